@@ -687,6 +687,35 @@ def run_impl(case):
                 if penc(out, env) != out_before:
                     fails.append('input-changed: deserialize_value rewrote the serialized data it was given')
             obs['deser'] = {'ok': penc(back, env)}
+            if not emit:
+                # what one call restores belongs to its caller: converting the restored quantities in place (pint's
+                # ito*) must not show in what the next call restores from the same data, and no quantity object is
+                # handed out twice
+                seen, dup = set(), [False]
+
+                def _convert(x):
+                    if hasattr(x, 'ito_base_units') and hasattr(x, 'magnitude'):
+                        if id(x) in seen:
+                            dup[0] = True
+                        seen.add(id(x))
+                        try:
+                            x.ito_base_units()
+                        except Exception:  # noqa
+                            pass
+                    elif isinstance(x, dict):
+                        for v in x.values():
+                            _convert(v)
+                    elif isinstance(x, (list, tuple)):
+                        for v in x:
+                            _convert(v)
+                _convert(back)
+                if dup[0]:
+                    fails.append('restored-shared: one quantity object stands at two places of the restored tree')
+                back2 = S.deserialize_value(out)
+                if penc(back2, env) != obs['deser']['ok']:
+                    fails.append('restored-shared: converting the restored quantities in place changed what a second '
+                                 'deserialize_value of the same data returns')
+                back = back2
         except Exception as e:  # noqa
             back = None
             obs['deser'] = {'err': 'Exception'}
